@@ -103,7 +103,7 @@ func bfsEvents(tier string) *BFSDef {
 		"mv w/d/s w/o/s", "write w/o/s/x",
 		"open w/d/a", "closefd w/d/a", "rmr w/d/s", "touch w/d/s/y", "write w/d/s/x",
 		"write w/f", "chmod w/f", "rm w/f", "touch w/f", "mv w/f w/g",
-		"A w/d", "R w/d", "A w/f", "R w/f", "A w/d/s", "R w/d/s",
+		"A w/d", "R w/d", "A w/f", "R w/f", "A w/d/s", "R w/d/s", "A w/d/a", "R w/d/a",
 	}
 	d, td, pd := 2, 0, 2
 	if tier == "thorough" {
@@ -267,9 +267,14 @@ func init() {
 	ev := func(prop, oracle string, extra func(string) []Job) *CheckDef {
 		return &CheckDef{Prop: prop, Rule: eventsRule,
 			Technique: "explicit-state model checking of the real code (BFS over histories x batchings) plus exhaustive enumeration of name-shape batches and buffer-boundary bursts; oracle = " + oracle,
-			BFS:       func(tier string) []*BFSDef { return []*BFSDef{bfsEvents(tier)} },
-			Jobs:      func(tier string) []Job { return append(eventsJobs(tier), extra(tier)...) },
-			Assume:    []string{"the kernel's record stream, captured at the read seam, is ground truth", "histories are sequential; reader/consumer interleavings are covered by C03/C05/C07's schedule exploration"}}
+			BFS: func(tier string) []*BFSDef {
+				if prop == "C02" {
+					return []*BFSDef{bfsEvents(tier), bfsRec(tier)}
+				}
+				return []*BFSDef{bfsEvents(tier)}
+			},
+			Jobs:   func(tier string) []Job { return append(eventsJobs(tier), extra(tier)...) },
+			Assume: []string{"the kernel's record stream, captured at the read seam, is ground truth", "histories are sequential; reader/consumer interleavings are covered by C03/C05/C07's schedule exploration"}}
 	}
 	Checks["C01"] = ev("C01", "every must-deliver kernel record appears on Events exactly once with the documented operation and name; a shortfall is only allowed behind a kernel overflow marker, which must yield ErrEventOverflow", func(string) []Job { return nil })
 	Checks["C02"] = ev("C02", "every received event is backed by a kernel record of a currently listed watch (or a direct child), has a non-empty Op, and none stems from housekeeping records or from changes after Remove returned", func(string) []Job { return nil })
@@ -455,7 +460,8 @@ func c10Jobs(tier string) []Job {
 
 func c14Jobs(tier string) []Job {
 	caps := []int{-1, 0, 1, 2, 4, 8, 16, 64, 256, 1024, 4096, 16384, 65536}
-	base := []string{"touch w/d/n", "write w/d/a", "chmod w/d/a", "rm w/d/a", "mv w/d/a w/d/c", "mv w/o/p w/d/p", "mv w/d/b w/o/b", "write w/f", "mv w/f w/g", "mkdir w/d/m"}
+	long := strings.Repeat("L", 250) // a record longer than 256 bytes: anything sized from the channel capacity shows
+	base := []string{"touch w/d/n", "write w/d/a", "chmod w/d/a", "rm w/d/a", "mv w/d/a w/d/c", "mv w/o/p w/d/p", "mv w/d/b w/o/b", "write w/f", "mv w/f w/g", "mkdir w/d/m", "touch w/d/" + long}
 	var hist [][]string
 	for _, a := range base {
 		hist = append(hist, []string{a})
@@ -505,6 +511,7 @@ func c14Jobs(tier string) []Job {
 			}
 			jobs = append(jobs, Job{Family: "seq-batch", Params: map[string]any{"base": map[string]any{"fix": "std", "init": []string{"A w/d", "A w/f"}},
 				"histories": hs[off:end], "variants": vars[off:end], "group": group}})
+			jobs[len(jobs)-1].Params["base"].(map[string]any)["tag14"] = "true"
 		}
 	}
 	// buffered Watchers whose consumer lags: every step is read (no kernel coalescing across steps) but nothing
